@@ -17,5 +17,4 @@ func VerifConvertCapture(r *syntax.Regexp, flags syntax.Flags) *syntax.Regexp {
 	return convertCapture(r, flags)
 }
 
-// VerifRegexpFlags is the parser's regexpFlags constant.
-const VerifRegexpFlags = regexpFlags
+// (VerifRegexpFlags, the parser's regexpFlags constant, is exported by zz_verif_c07.go)
